@@ -11,6 +11,7 @@ import sys
 
 from lib import common as C, h1, mcgen, mcheck
 from checks.c02 import parse_script, structural
+from translators import consts2lean
 
 sys.setrecursionlimit(20000)
 NO_TIME = 18446744073709551615
@@ -70,7 +71,13 @@ def leak_shape(o, script):
 
 
 def run(ctx):
-    ok, problems = C.prove(ctx, "C05")
+    ctx.snapshot()
+    try:
+        ch, _ = consts2lean.main(ctx.src, ctx.scratch)
+        ctx.notes.append('Gen/Consts.lean regenerated (changed=%s)' % ch)
+        ok, problems = C.prove(ctx, "C05")
+    except Exception as e:
+        ok, problems = False, ['translator failed: %s' % e]
     proof_broken = not ok
     exe, log = h1.build(ctx, "normal")
     if not exe:
